@@ -397,3 +397,6 @@ def check(ctx):
     import_rules(ctx, "c06", {"free-slot-field-position", "no-lost-link-update", "large-pop-conservation", "large-pop", "push-pop-inverse", "alloc", "writer-arms", "tables", "class-slot", "large-threshold", "delete-pushes-slot"})
     import_rules(ctx, "c08", {"relink", "abort", "refusal"})
     import_rules(ctx, "c09", {"sizer-covers-writer", "slot-honoured", "vu64-reader-consumes-encoded-length"})
+    # two distinct byte-string keys are two entries under every key type: the chain comparison is on the full stored bytes
+    # (a key type comparing decoded values conflates keys that differ beyond / below the decoded width)
+    import_rules(ctx, "c10", {"byte-identity"})
